@@ -52,6 +52,7 @@ class Env:
         self.tmp = tempfile.mkdtemp(prefix="c20_", dir=os.environ.get("HITEN_SCRATCH") or None)
         self._n = 0
         self._pref = {}
+        self._xref = {}
 
     def system_b(self):
         if self.sb is None:
@@ -69,6 +70,7 @@ class Env:
             o = self.L1.create_orbit("lyapunov", amplitude_x=A)
             o.correct()
             self._pref[A] = round(float(o.period), 6)
+            self._xref[A] = np.array(o.initial_state, dtype=float)
         return self._pref[A]
 
     def close(self):
@@ -151,13 +153,20 @@ class OrbitFamily:
 
     # -- family protocol
     def fresh(self, params, twin):
-        return {"o": self.env.L1.create_orbit("lyapunov", amplitude_x=params["A"]), "A": params["A"]}
+        # start = "guess": analytical first guess of amplitude A (correction needs ~12 Newton steps)
+        # start = "ref"  : constructed from an already corrected state (correction converges at once: cheap prefix)
+        if params.get("start", "guess") == "ref":
+            self.env.p_ref(params["A"])
+            o = self.env.L1.create_orbit("lyapunov", initial_state=self.env._xref[params["A"]].copy())
+        else:
+            o = self.env.L1.create_orbit("lyapunov", amplitude_x=params["A"])
+        return {"o": o, "A": params["A"]}
 
     def dispose(self, h):
         h.clear()
 
     def params_key(self, params):
-        return params["A"]
+        return (params["A"], params.get("start", "guess"))
 
     def clear_twin_memos(self, h):
         o = h["o"]
@@ -193,8 +202,8 @@ class OrbitFamily:
         if op.kind == "correct":
             hit = [key for (t, h, key) in steps[k].events if t == "correct" and h]
             if hit:
-                j = next((i for i in range(k) for (t, h, key) in steps[i].events
-                          if t == "correct" and not h and key == hit[0]), None)
+                j = next((i for i in range(k) if not isinstance(steps[i].real, tw.Exc) for (t, h, key) in steps[i].events
+                          if t == "correct" and not h and key == hit[0]), None)   # the step that stored the entry
                 if j is not None:
                     creator = self.ops[steps[j].op]
                     if creator.kind == "correct" and creator.arg != op.arg:
@@ -518,7 +527,7 @@ class Explorer:
         ctx.count("histories")
         if nontriv:
             ctx.count("nontrivial_histories")
-        ctx.count("cache_hits_served_by_real_object", res["hits"])
+        ctx.count("memo_hits_served_by_real_object(excluding compiled vector fields)", res["hits"])
         ctx.count("steps_served_from_their_own_memo", res["own_hits"])
         if res["own_hits"]:
             ctx.count("histories_with_a_step_served_from_memo")
@@ -561,23 +570,27 @@ def orbit_workload(ctx, ex, env):
     work = []
     # reduced alphabets (bounded-exhaustive); the prefix puts the orbit into a state where the letters are defined
     subs = [
-        ((), ["correct_D", "correct_X", "correct_L", "set_period_half", "period"]),
-        (("correct_D",), ["propagate_30_adaptive8", "propagate_60_adaptive8", "propagate_30_fixed4", "propagate_30_fixed6", "trajectory"]),
-        (("correct_D",), ["set_period_P", "set_period_half", "monodromy", "stability_indices", "correct_D"]),
+        ("guess", (), ["correct_D", "correct_X", "correct_L", "set_period_half", "period"], L),
+        ("ref", ("correct_D",), ["propagate_30_adaptive8", "propagate_60_adaptive8", "propagate_30_fixed4", "propagate_30_fixed6", "trajectory"], L),
+        ("ref", ("correct_D",), ["propagate_30_adaptive8", "propagate_60_adaptive8", "trajectory"], 4),
+        ("ref", ("correct_D",), ["set_period_P", "set_period_half", "monodromy", "stability_indices", "correct_D"], L),
     ]
     if not ctx.quick:
         subs += [
-            ((), ["correct_D", "correct_M", "correct_L", "initial_state", "energy", "monodromy"]),
-            (("correct_D",), ["propagate_60_fixed4", "propagate_60_fixed6", "set_period_half", "trajectory", "eigenvalues", "jacobi"]),
+            ("guess", (), ["correct_D", "correct_M", "correct_L", "initial_state", "energy", "monodromy"], L),
+            ("ref", ("correct_D",), ["propagate_60_fixed4", "propagate_60_fixed6", "set_period_half", "trajectory", "eigenvalues", "jacobi"], L),
         ]
-    for prefix, letters in subs:
-        for h in exhaustive(letters, L, prefix):
-            work.append(("exhaustive", h))
+    seen = set()
+    for start, prefix, letters, depth in subs:
+        for h in exhaustive(letters, depth, prefix):
+            if (start, h) not in seen:
+                seen.add((start, h))
+                work.append(("exhaustive", start, h))
     letters = [n for n in fam.ops if n != "saveload"]
     w = [3.0 if fam.ops[n].kind in ("correct", "propagate", "set_period") else 1.5 for n in letters]
     for _ in range(ctx.pick(40, 600)):
         pre = ("correct_D",) if rng.random() < 0.7 else ()
-        work.append(("walk", walk(rng, letters, w, 8, 15, pre)))
+        work.append(("walk", "ref" if rng.random() < 0.5 else "guess", walk(rng, letters, w, 8, 15, pre)))
     # save -> load -> continue (every reload recompiles the vector fields of the unpickled System copy: few, read-heavy)
     sl = [
         ("correct_D", "propagate_30_adaptive8", "stability_indices", "saveload", "period", "initial_state", "trajectory",
@@ -591,11 +604,11 @@ def orbit_workload(ctx, ex, env):
         b = walk(rng, cheap, None, 3, 6)
         sl.append(a + ("saveload",) + b + (("monodromy",) if rng.random() < 0.5 else ("propagate_30_adaptive8", "trajectory")))
     for h in sl:
-        work.append(("saveload", h))
-    for i, (cls, h) in enumerate(work):
+        work.append(("saveload", "guess", h))
+    for i, (cls, start, h) in enumerate(work):
         if not ctx.mine(i):
             continue
-        ex.run(fam, {"A": AMPS[i % len(AMPS)]}, h, cls)
+        ex.run(fam, {"A": AMPS[i % len(AMPS)], "start": start}, h, cls)
 
 
 def point_workload(ctx, ex, env):
